@@ -47,7 +47,29 @@ def targets_for(data, segs, need_scalar=True, allow_root=False):
     return res
 
 
-MERGE_LIST_DEFINES_ANCHOR = re.compile(r"<<: \[[^\]\n]*&[A-Za-z0-9_]+ [^\]\n,]+: ")
+MERGE_LIST_DEFINES_ANCHOR = re.compile(r"<<: \[.*&[A-Za-z0-9_]+ [^\]\n,{}]+: ")
+
+
+def unlisted_inheritors(data):
+    """Mappings that merge a source whose ruamel referer list does not hold them (by identity)."""
+    out, seen = [], set()
+
+    def walk(n):
+        if id(n) in seen:
+            return
+        seen.add(id(n))
+        if isinstance(n, dict):
+            for (_i, m) in (getattr(n, "merge", None) or []):
+                if not any(r is n for r in getattr(m, "_ref", [])):
+                    out.append(n)
+                walk(m)
+            for v in n.values():
+                walk(v)
+        elif isinstance(n, list) and not yp.is_set(n):
+            for e in n:
+                walk(e)
+    walk(data)
+    return out
 
 
 def reload_check(ctx, data, case, prefix, reload_claimed=True):
@@ -77,7 +99,12 @@ def reload_check(ctx, data, case, prefix, reload_claimed=True):
         ctx.violation(prefix + "/reload-differs", {
             "case": case, "summary": "reload differs at %r ; dump=%r" % (df[:3], text2[:300])})
     elif E.effective(data) != E.effective(d2):
-        ctx.violation(prefix + "/reload-differs-inherited", {
+        mech = prefix + "/reload-differs-inherited"
+        if unlisted_inheritors(data):
+            # ruamel's CommentedMap.add_referent() keeps its list of inheritors free of *equal* entries (`not in`), so of
+            # two inheritors with equal content only one is ever refreshed when the merge source changes
+            mech += "/inheritor-missing-from-ruamel-referer-list"
+        ctx.violation(mech, {
             "case": case, "summary": "what mappings inherit through << differs after reload; dump=%r" % text2[:300]})
     ctx.count("reload_checked")
 
